@@ -288,7 +288,7 @@ pub fn dump_midi_event_meta(bin: &Vec<u8>, pos: &mut usize, info: &mut MidiReade
                     let nn = bin[p + 3] as usize;
                     let dd = bin[p + 4] as usize;
                     info.frac = nn;
-                    info.deno = (2i32.pow(dd as u32)) as usize;
+                    info.deno = 2usize.saturating_pow(dd as u32); // any exponent byte: must not overflow
                     format!("TimeSig={}/{}", info.frac, info.deno)
                 },
                 _ => { // text
@@ -468,8 +468,9 @@ pub fn dump_midi(bin: &Vec<u8>, flag_stdout: bool) -> String {
             let beat_base = if beat_base == 0 { timebase } else { beat_base }; // for divisor of zero
             let tick = time % beat_base;
             let base = time / beat_base;
-            let beat = base %  info.frac + 1;
-            let mes = base / info.frac + 1;
+            let frac = if info.frac == 0 { 1 } else { info.frac }; // a numerator byte of 0 must not divide by zero
+            let beat = base %  frac + 1;
+            let mes = base / frac + 1;
             //
             let desc = dump_midi_event(bin, &mut pos, &mut info);
             // log(&format!("{:5}|TIME({:03}:{:03}:{:03}) {}", time, mes, beat, tick, desc));
